@@ -1,11 +1,236 @@
 (* C02 — a cell's geometry keeps its Boolean meaning through read, edit and write.
-   Headline theorems only; the proofs are in Proofs/GeomProofs.v, the model in Model/Geom.v. *)
-From Coq Require Import List ZArith Bool String.
-From MPV Require Import Model.Geom Proofs.GeomProofs.
-Import ListNotations.
-Open Scope Z_scope.
+   Headline theorems only; the proofs are in Proofs/GeomProofs.v, the model in Model/Geom.v.
 
+   Vocabulary (Model/Geom.v):
+     bexp, eval, beq        Boolean functions of surface senses / cell complements; beq = equal on every assignment
+     gtok, GD, GDenotes     MCNP's geometry rules as a relation tokens -> bexp, written independently of MontePy:
+                            '#' binds tighter than juxtaposition (intersection), which binds tighter than ':';
+                            parentheses override; '#n' is a cell complement leaf
+     stok, ptree, pwf       tokens of CellParser and parse trees over the production table that
+                            harness/translate_grammar.py generates from the source (Gen/Grammar.v: cell_productions)
+     pact                   the semantic action of each geometry production (which GeometryTree it builds)
+     gtree, sem_tree        GeometryTree and its meaning;  hs, sem_hs  HalfSpace / UnitHalfSpace and its meaning
+     parse_input_node, hs_and hs_or hs_not hs_iop surf_pos surf_neg cell_compl hs_set_left hs_set_right hs_set_op
+     update_values (= _ensure_has_nodes + _update_node), format_hs (GeometryTree.format), written_tokens, cell_tokens *)
+From Coq Require Import List ZArith Bool String.
+From MPV Require Import Model.Geom Gen.Grammar Proofs.GeomProofs.
+Import ListNotations.
+
+(* ================================================================== 1. reading *)
+
+(* translator obligations: the productions the model gives an action to are exactly the geometry productions of
+   the table generated from CellParser (any change of the grammar in the source breaks these equations) *)
+Theorem C02_grammar_skeleton : geom_table cell_productions = map fst geom_rules.
+Proof. exact grammar_skeleton. Qed.
+Print Assumptions C02_grammar_skeleton.
+
+Theorem C02_padding_skeleton :
+  filter (fun p => String.eqb (fst p) "padding") cell_productions =
+  [("padding", ["padding"; "&"]); ("padding", ["padding"; "COMMENT"]); ("padding", ["padding"; "DOLLAR_COMMENT"]);
+   ("padding", ["padding"; "SPACE"]); ("padding", ["COMMENT"]); ("padding", ["DOLLAR_COMMENT"]); ("padding", ["SPACE"])]%string.
+Proof. exact padding_table. Qed.
+Print Assumptions C02_padding_skeleton.
+
+(* grammar soundness: for EVERY parse tree of geometry_expr over the generated productions (so whichever
+   derivation the LALR automaton picks), built without the shortcut productions and without "#-n", the action
+   is defined and the tree it builds means what MCNP's rules give for the tokens with the padding removed *)
+Theorem C02_grammar_sound : forall t,
+  pwf cell_productions t = true -> proot t = "geometry_expr"%string ->
+  uses_shortcut t = false -> hash_neg (pyield t) = false ->
+  exists g, pact t = Some g /\ GDenotes (strip (pyield t)) (sem_tree g).
+Proof. exact grammar_sound. Qed.
+Print Assumptions C02_grammar_sound.
+
+(* the hypotheses are satisfiable: "( 1 : -2 ) 3 #5 #(4)" with its blanks *)
+Example C02_grammar_sound_nonvacuous :
+  pwf cell_productions ex_ptree = true /\ proot ex_ptree = "geometry_expr"%string /\
+  uses_shortcut ex_ptree = false /\ hash_neg (pyield ex_ptree) = false /\
+  strip (pyield ex_ptree) =
+    [TLParen; TLeaf true 1; TColon; TLeaf false 2; TRParen; TLeaf true 3; TCompl 5;
+     THash; TLParen; TLeaf true 4; TRParen]%Z /\
+  pact ex_ptree =
+    Some (GBin OInter
+            (GBin OInter
+               (GBin OInter (GParen (GBin OUnion (GShift (GVal true 1)) (GVal false 2))) (GVal true 3))
+               (GCompl (GVal true 5)))
+            (GCompl (GParen (GShift (GVal true 4)))))%Z.
+Proof. exact ex_ptree_ok. Qed.
+Print Assumptions C02_grammar_sound_nonvacuous.
+
+(* the same at the level the rest of the model works at (padding erased): productions with their actions *)
+Theorem C02_derives_sound : forall l ts t, Derives l ts t -> GD l ts (sem_tree t).
+Proof. exact derives_sound. Qed.
+Print Assumptions C02_derives_sound.
+
+(* the syntax tree keeps every token *)
+Theorem C02_tree_lossless : forall l ts t, Derives l ts t -> format_tree t = ts.
+Proof. exact derives_lossless. Qed.
+Print Assumptions C02_tree_lossless.
+
+(* MCNP's rules give a text at most one meaning, and the executable reference parser (the one the harness
+   compares spec.py with) is sound for them *)
+Theorem C02_reference_unique : forall ts e1 e2, GDenotes ts e1 -> GDenotes ts e2 -> e1 = e2.
+Proof. exact GD_unique. Qed.
+Print Assumptions C02_reference_unique.
+
+Theorem C02_reference_parser_sound : forall ts e, gparse ts = Some e -> GDenotes ts e.
+Proof. exact gparse_sound. Qed.
+Print Assumptions C02_reference_parser_sound.
+
+Example C02_reference_parser_nonvacuous :
+  gparse [TLeaf true 1; TColon; TLeaf true 2; TLeaf false 3; THash; TLParen; TLeaf true 4; TColon; TCompl 7; TRParen]%Z
+  = Some (BOr (BSurf true 1)
+              (BAnd (BAnd (BSurf true 2) (BSurf false 3)) (BNot (BOr (BSurf true 4) (BCompl 7)))))%Z.
+Proof. exact ex_gparse. Qed.
+Print Assumptions C02_reference_parser_nonvacuous.
+
+(* ================================================================== 2. the object the API exposes *)
+
+(* HalfSpace.parse_input_node: the object means what the syntax tree means *)
+Theorem C02_tree_to_halfspace : forall t, beq (sem_hs (parse_input_node t)) (sem_tree t).
+Proof. exact tree_to_halfspace. Qed.
+Print Assumptions C02_tree_to_halfspace.
+
+Example C02_tree_to_halfspace_nonvacuous :
+  sem_tree ex_tree =
+    BAnd (BAnd (BAnd (BOr (BSurf true 1) (BSurf false 2)) (BSurf true 3))
+               (BNot (BAnd (BSurf true 4) (BSurf true 5)))) (BCompl 2) /\
+  sem_hs (parse_input_node ex_tree) =
+    BAnd (BAnd (BAnd (BOr (BSurf true 1) (BSurf false 2)) (BSurf true 3))
+               (BNot (BAnd (BSurf true 4) (BSurf true 5)))) (BNot (BNot (BCompl 2)))%Z.
+Proof. exact ex_tree_to_halfspace. Qed.
+Print Assumptions C02_tree_to_halfspace_nonvacuous.
+
+(* & | ~ are And Or Not;  +s -s ~c are the leaves *)
+Theorem C02_ops : forall a b,
+  sem_hs (hs_and a b) = BAnd (sem_hs a) (sem_hs b) /\
+  sem_hs (hs_or a b) = BOr (sem_hs a) (sem_hs b) /\
+  sem_hs (hs_not a) = BNot (sem_hs a).
+Proof. exact ops_sem. Qed.
+Print Assumptions C02_ops.
+
+Theorem C02_units : forall n,
+  sem_hs (surf_pos n) = BSurf true n /\ sem_hs (surf_neg n) = BSurf false n /\
+  beq (sem_hs (cell_compl n)) (BCompl n).
+Proof. exact units_sem. Qed.
+Print Assumptions C02_units.
+
+(* &= and |= exactly as the code behaves: the new operand is grafted at the end of the right spine of binary
+   nodes of the left operand ... *)
+Theorem C02_aug_ops : forall op a b,
+  sem_hs (fst (hs_iop op a b)) = graft op (sem_hs a) (sem_hs b).
+Proof. exact iop_sem. Qed.
+Print Assumptions C02_aug_ops.
+
+(* ... which is And / Or when that spine only has the same operator ... *)
+Theorem C02_aug_ops_spine : forall op a b, right_spine op (sem_hs a) ->
+  beq (sem_hs (fst (hs_iop op a b))) (bop op (sem_hs a) (sem_hs b)).
+Proof. exact aug_spine. Qed.
+Print Assumptions C02_aug_ops_spine.
+
+(* ... and is not in general ((s1 | s2) &= s3 is s1 | (s2 & s3); MontePy's user guide warns about this, and
+   C02 only demands that the object and the written text agree, which C02_write gives) *)
+Theorem C02_aug_ops_not_and :
+  exists a b, reachable a /\ reachable b /\
+    ~ beq (sem_hs (fst (hs_iop OInter a b))) (BAnd (sem_hs a) (sem_hs b)).
+Proof. exact aug_differs. Qed.
+Print Assumptions C02_aug_ops_not_and.
+
+Example C02_aug_ops_nonvacuous :
+  sem_hs (fst (hs_iop OInter (hs_or (surf_pos 1) (surf_pos 2)) (surf_pos 3)))
+  = BOr (BSurf true 1) (BAnd (BSurf true 2) (BSurf true 3)) /\
+  right_spine OInter (sem_hs (hs_and (surf_pos 1) (surf_pos 2)))%Z.
+Proof. exact ex_iand. Qed.
+Print Assumptions C02_aug_ops_nonvacuous.
+
+(* ================================================================== 3. writing *)
+
+(* reachable: parsed from any derivation, +s -s ~c, closed under & | ~ &= |= , the left / right setters, and
+   having been written before.  The tokens that HalfSpace._update_values + GeometryTree.format produce are a
+   geometry by MCNP's rules and denote the Boolean function of the object. *)
 Theorem C02_write : forall h, reachable h ->
   exists e, GDenotes (written_tokens h) e /\ beq e (sem_hs h).
 Proof. exact write_reachable. Qed.
 Print Assumptions C02_write.
+
+(* the same through Cell._update_values, which may keep parentheses around the whole geometry *)
+Theorem C02_write_cell : forall h lk, reachable h ->
+  exists e, GDenotes (cell_tokens (mkcell h lk)) e /\ beq e (sem_hs h).
+Proof. exact cell_write_reachable. Qed.
+Print Assumptions C02_write_cell.
+
+(* a reachable object that uses every constructor (parsed "(1:-2) 3 #(4 5) #2", &= a union, right side
+   replaced, written once, complemented) and what is written for it *)
+Example C02_write_nonvacuous :
+  reachable ex_edited /\
+  written_tokens ex_edited =
+    [THash; TLParen;
+       TLParen; TLeaf true 1; TColon; TLeaf false 2; TRParen; TLeaf true 3;
+       THash; TLParen; TLeaf true 4; TLeaf true 5; TRParen;
+       TLParen; TLeaf true 8; TColon; TLeaf true 9; TRParen;
+     TRParen]%Z.
+Proof. split; [exact ex_reachable | exact ex_edited_tokens]. Qed.
+Print Assumptions C02_write_nonvacuous.
+
+(* built from scratch (no syntax node anywhere): the parentheses the operator tree needs are generated *)
+Theorem C02_write_scratch : forall h, scratch h = true ->
+  exists e, GDenotes (written_tokens h) e /\ beq e (sem_hs h).
+Proof. exact write_scratch. Qed.
+Print Assumptions C02_write_scratch.
+
+Example C02_write_scratch_nonvacuous :
+  scratch ex_scratch = true /\
+  written_tokens ex_scratch = [TLParen; TLeaf false 1; TColon; TLeaf true 2; TRParen; TLeaf false 3]%Z.
+Proof. exact ex_write_scratch. Qed.
+Print Assumptions C02_write_scratch_nonvacuous.
+
+(* parsed and not edited: exactly the tokens that were read come back (redundant parentheses included) *)
+Theorem C02_unedited_exact : forall ts t, Derives LE ts t -> cell_tokens (parse_cell t) = ts.
+Proof. exact unedited_exact. Qed.
+Print Assumptions C02_unedited_exact.
+
+Example C02_unedited_nonvacuous : Derives LE ex_tokens ex_tree /\ cell_tokens (parse_cell ex_tree) = ex_tokens.
+Proof. split; [exact ex_derives | exact ex_unedited]. Qed.
+Print Assumptions C02_unedited_nonvacuous.
+
+(* the wire entry the harness drives (operator programs on a parsed cell or from scratch): every program without
+   "operator = INTERSECTION" writes a text that means what the resulting object means *)
+Theorem C02_programs : forall base p h toks,
+  match base with Some t => exists ts, Derives LE ts t | None => True end ->
+  forallb instr_ok p = true ->
+  run_case base p = inr (h, toks) ->
+  exists e, GDenotes toks e /\ beq e (sem_hs h).
+Proof. exact run_case_correct. Qed.
+Print Assumptions C02_programs.
+
+Example C02_programs_nonvacuous :
+  exists h, run_case (Some (GBin OInter (GParen (GBin OUnion (GShift (GVal true 1)) (GVal false 2))) (GVal true 3)))
+              [IBase; ISurf true 4; ISurf false 5; IOr; IIand]
+  = inr (h, [TLParen; TLeaf true 1; TColon; TLeaf false 2; TRParen; TLeaf true 3;
+             TLParen; TLeaf true 4; TColon; TLeaf false 5; TRParen])%Z.
+Proof. exact ex_run_case. Qed.
+Print Assumptions C02_programs_nonvacuous.
+
+(* ================================================================== 4. the HalfSpace.operator setter *)
+
+(* not one of the operators the property lists, but part of the API: with it the statement is FALSE of the
+   current code.  "1:2:3" read, geometry.operator = INTERSECTION: the object is (1:2) 3, the text "1 : 2 3". *)
+Theorem C02_write_setop_refuted :
+  exists ts t h, Derives LE ts t /\ hs_set_op (parse_input_node t) OInter = Some h /\
+    forall e, GDenotes (written_tokens h) e -> ~ beq e (sem_hs h).
+Proof. exact write_setop_refuted. Qed.
+Print Assumptions C02_write_setop_refuted.
+
+(* the exact side condition: setting UNION is always fine, setting INTERSECTION when no child that keeps its
+   syntax node is a union without parentheses of its own *)
+Theorem C02_write_setop_partial : forall a op h, inv a = true -> hs_set_op a op = Some h ->
+  (op = OInter -> setop_safe a = true) ->
+  exists e, GDenotes (written_tokens h) e /\ beq e (sem_hs h).
+Proof. exact write_setop_partial. Qed.
+Print Assumptions C02_write_setop_partial.
+
+Example C02_write_setop_partial_nonvacuous :
+  exists ts t h, Derives LE ts t /\ hs_set_op (parse_input_node t) OInter = Some h /\
+                 setop_safe (parse_input_node t) = true /\ is_union (parse_input_node t) = true.
+Proof. exact ex_setop_safe. Qed.
+Print Assumptions C02_write_setop_partial_nonvacuous.
